@@ -577,6 +577,8 @@ fn zoo(thorough: bool) -> Vec<S> {
     let edge_texts: Vec<String> = vec![
         "\0".into(), "a\0".into(), "\0a".into(), "a\0b".into(), "a\0\0".into(), "ab\0".into(), "abc".into(), "abcd".into(),
         s21.into(), format!("{s21}\0"), format!("{s22}\0"), format!("{}\0\0", &s22[..20]), format!("{s21}é"), format!("{}é", &s22[..20]),
+        // other control bytes, DEL, and 2 / 3 / 4-byte characters behind a common prefix
+        "a\x01".into(), "a\x7f".into(), "a\u{80}".into(), "a\u{800}".into(), "a\u{10000}".into(), "\0\0".into(), format!("{s22}\x01"),
     ];
     for (n, t) in edge_texts.iter().enumerate() {
         z.push(S::Str(t.clone(), 0));
@@ -836,6 +838,11 @@ fn alphabet_c() -> Vec<S> {
 }
 
 /// characters of the `chars` form (a string as filter input stands for the list of its characters)
+/// strings that differ in what holds them and in trailing / embedded control bytes: inline `a`, inline and heap
+/// `a\0`, `a\0\0`, `a\x01`, the safe string `a`, and `A\0` (a case-insensitive tie with `a\0`)
+fn alphabet_d() -> Vec<S> {
+    vec![s0("a"), s0("a\0"), S::Str("a\0".into(), 1), s0("a\0\0"), s0("a\x01"), S::Str("a".into(), 2), s0("A\0")]
+}
 const CHARS: [char; 7] = ['b', 'a', 'B', 'é', '1', ' ', 'A'];
 
 fn word_list_in(word: &str, alt: bool) -> Vec<S> {
@@ -1468,12 +1475,15 @@ fn run_flist(env: &Environment<'static>, form: &str, word: &str) -> String {
     let xs = if form.ends_with('C') {
         let al = alphabet_c();
         word.bytes().map(|c| al[(c - b'0') as usize].clone()).collect()
+    } else if form.ends_with('D') {
+        let al = alphabet_d();
+        word.bytes().map(|c| al[(c - b'0') as usize].clone()).collect()
     } else if form == "chars" {
         word.bytes().map(|c| S::Str(CHARS[(c - b'0') as usize].to_string(), 0)).collect()
     } else {
         word_list_in(word, alt)
     };
-    let form = form.trim_end_matches('B').trim_end_matches('C');
+    let form = form.trim_end_matches('B').trim_end_matches('C').trim_end_matches('D');
     let tmpl = env.template_from_str("").unwrap();
     let mut state = tmpl.new_state();
     let mut fc = FilterCheck { state: &mut state, fails: vec![], n: 0 };
@@ -2809,6 +2819,12 @@ fn gen_part(out: &mut dyn Write, env: &Environment<'static>, thorough: bool, par
                 if w.len() <= 3 {
                     writeln!(out, "flist dictC {wtxt}\t{}", run_flist(env, "dictC", &w)).unwrap();
                     writeln!(out, "flist keysC {wtxt}\t{}", run_flist(env, "keysC", &w)).unwrap();
+                }
+                writeln!(out, "flist plainD {wtxt}\t{}", run_flist(env, "plainD", &w)).unwrap();
+                writeln!(out, "flist wrapD {wtxt}\t{}", run_flist(env, "wrapD", &w)).unwrap();
+                if w.len() <= 3 {
+                    writeln!(out, "flist dictD {wtxt}\t{}", run_flist(env, "dictD", &w)).unwrap();
+                    writeln!(out, "flist keysD {wtxt}\t{}", run_flist(env, "keysD", &w)).unwrap();
                 }
             }
         }
